@@ -268,9 +268,9 @@ def maximise(s, g):
     g = np.asarray(g, dtype=float)
     n = s['nz'] + s['nu']
     kinds = set(p['t'] for p in s['pieces'])
-    if not np.any(g):
+    if not np.any(np.abs(g) > 1e-12):
         c = centre_w(s)
-        return 0.0, c, True
+        return float(g @ c), c, True
     if kinds <= {'box', 'linf', 'l1', 'poly', 'eq', 'budget'}:
         A, b, Ae, be, N = _lp_parts(s)
         cost = np.zeros(N)
